@@ -219,6 +219,8 @@ def run(res, tier, seed):
             ss = xslgen.sorting_stylesheet(rng)       # the sorting family
         elif k % 10 == 7:
             ss = xslgen.imports_stylesheet(rng)       # the imports family (import tree, apply-imports, named template overriding)
+        elif k % 10 == 5:
+            ss = xslgen.attrsets_stylesheet(rng)      # the attribute-set family (merging by import precedence, sets using sets, copy of non-elements)
         elif k % 10 == 1:
             ss = xslgen.multidoc_stylesheet(rng)      # the multi-document family (document(), keys / id / numbering / sorting in loaded documents)
         else:
@@ -294,7 +296,8 @@ def run(res, tier, seed):
                        "to depth 3 over the instruction kinds listed in instruction_kinds_generated, expressions from the typed XPath generator with the variables in scope; documents "
                        "from the XPath corpus; every 5th stylesheet from the scoping family (call-template / apply-templates with and without with-param under if/choose/for-each/"
                        "literal elements, same-named caller variables), every 10th from the sorting family (1-3 tie-prone sort keys, mixed order and data-type, position()/last() printed), every 10th from the imports family "
-                       "(import tree of four modules, rules with overlapping patterns/modes/priorities, xsl:apply-imports, a named template defined in several modules, xsl:include'd runs), every 10th from the multi-document family (document(): identity of loaded "
+                       "(import tree of four modules, rules with overlapping patterns/modes/priorities, xsl:apply-imports, a named template defined in several modules, xsl:include'd runs), every 10th from the attribute-set family (sets merged by import precedence, sets using sets, use-attribute-sets on literal elements / xsl:element / "
+                       "xsl:copy incl. copies of the root, text and attribute nodes), every 10th from the multi-document family (document(): identity of loaded "
                        "documents, keys / id() / xsl:number / sorting / template application inside them, strip-space applied to them); non-trivial = at least 5 different instruction kinds in the stylesheet and a non-trivial result tree; distinct by (stylesheet, document). "
                        "Cases whose definition value involves a number outside the model or a dynamic error are not judged (counted in dropped_unjudged)")
     for ev in events[:2]:
